@@ -5,8 +5,9 @@ Dirichlet / Neumann / integral boundary rows, integration weights) and the Krone
 formulas of the implementation: coefficient vectors are mapped to the MONOMIAL basis with exact integer/rational recurrences for T_n, U_n and
 the Gegenbauer polynomials C_n^(lambda); differentiation, integration and evaluation are then ordinary polynomial calculus.  Per operator one
 SMT query (QF_LRA): for every coefficient vector in [-1,1]^N the matrix result and the exact operation have the same monomial coefficients.
-NOT claimed (outside): the DCT / FFT transforms themselves (scipy.fft cannot take symbolic data) and the Fourier operators (the only
-available oracle, i k, is the implementation formula itself)."""
+The Fourier operator matrices are checked against the analytic wavenumber formula the property names, and - without any formula - by the relations
+'integration inverts differentiation on zero-mean data' and interval covariance.  NOT claimed (outside): the DCT / FFT transforms themselves
+(scipy.fft cannot take symbolic data)."""
 import itertools
 import json
 import math
@@ -31,7 +32,7 @@ def describe(rep):
     rep.rule = 'case = (helper, N, operator, derivative order / interval); one SMT query over all coefficient vectors in the unit box'
     rep.assume('tolerance 1e-10 * (sum of absolute monomial conversion coefficients): the matrices are float64',
                'the interval map is x = fac * s + off with s in [-1,1]; operators that carry the map are checked on [x0,x1] = [-1,1], [0,1], [-2,5]')
-    rep.out_of_scope('transform / itransform round trip (DCT / FFT at the C boundary)', 'FFTHelper operators (oracle would duplicate the implementation formula i k)',
+    rep.out_of_scope('transform / itransform round trip (DCT / FFT at the C boundary)',
                      'N > 16 (quick: 8); the property ranges to 64', 'GPU / MPI code paths')
 
 
@@ -41,6 +42,7 @@ def tasks(tier, seed):
     for N in Ns:
         T.append(('cheb', N))
         T.append(('ultra', N))
+        T.append(('fft', N))
     T.append(('edge',))
     T.append(('kron',))
     return T
@@ -51,6 +53,8 @@ def run_task(rep, task):
         cheb_case(rep, task[1])
     elif task[0] == 'ultra':
         ultra_case(rep, task[1])
+    elif task[0] == 'fft':
+        fft_case(rep, task[1])
     elif task[0] == 'edge':
         edge_case(rep)
     elif task[0] == 'kron':
@@ -332,3 +336,64 @@ def replay(path):
     print(d)
     print('REPRODUCED')
     return 1
+
+
+# ------------------------------------------------------------------------------------------------ Fourier operators (relations + analytic wavenumbers)
+
+
+def fft_case(rep, N):
+    """FFTHelper operator matrices on [0, 2 pi) and on mapped intervals.  Decided over all complex coefficient vectors in the unit box:
+    D^p = diag((i kappa)^p) with kappa = 2 pi m / L (analytic formula of the property; pi is a float, tolerance scaled),
+    S^p D^p x = x and D^p S^p x = x on zero-mean data (no formula needed), S_0 handling, interval covariance D_L = (2 pi / L)^p D_ref,
+    S_L = (L / 2 pi)^p S_ref on zero-mean data, integration weights."""
+    from pySDC.helpers.spectral_helper import FFTHelper
+    from harness.c15 import capply, cbox
+
+    rep.func(FFTHelper.get_differentiation_matrix, FFTHelper.get_integration_matrix, FFTHelper.get_wavenumbers, FFTHelper.get_integration_weights)
+    xr = [z3.Real(f'xr{j}') for j in range(N)]
+    xi = [z3.Real(f'xi{j}') for j in range(N)]
+    zero_mean = [xr[0] == 0, xi[0] == 0]
+    modes = np.fft.fftfreq(N, 1.0 / N)
+    ref = FFTHelper(N)
+    for (x0, x1) in ((0.0, 2 * np.pi), (0.0, 1.0), (-2.0, 5.0), (3.0, 3.0 + 4 * np.pi)):
+        H = FFTHelper(N, x0=x0, x1=x1)
+        Lx = x1 - x0
+        kap = 2 * np.pi * modes / Lx
+        nm = f'fft/N{N}/[{x0:g},{x1:.4g}]'
+        for p in (1, 2, 3):
+            D = np.asarray(H.get_differentiation_matrix(p=p).todense())
+            S = np.asarray(H.get_integration_matrix(p=p).todense())
+            scale = float(np.abs(kap).max() ** p) + 1.0
+            tol = rv(Fraction(1, 10**11) * frac(scale) * N)
+            # analytic formula
+            a, b = capply(D, xr, xi)
+            spec = np.diag((1j * kap) ** p)
+            c, d = capply(spec, xr, xi)
+            decide(rep, f'{nm}/D{p}:analytic-wavenumbers', close(a + b, c + d, tol), xr + xi, 'fourier/differentiation',
+                   lambda cv, D=D, spec=spec: float(np.abs(D - spec).max()))
+            # D S = I and S D = I on zero-mean data
+            e, f = capply(S, a, b)
+            g, h = capply(S, xr, xi)
+            k_, l_ = capply(D, g, h)
+            tol2 = rv(Fraction(1, 10**11) * N)
+            res, m = prove(z3.And(close((e + f)[1:N] + (e + f)[N + 1:], (xr + xi)[1:N] + (xr + xi)[N + 1:], tol2), close((k_ + l_)[1:N] + (k_ + l_)[N + 1:], (xr + xi)[1:N] + (xr + xi)[N + 1:], tol2)),
+                           cbox(xr + xi) + zero_mean, name=f'{nm}/p{p}:integration-inverts-differentiation-on-zero-mean-data')
+            rep.ob(f'{nm}/p{p}:integration-inverts-differentiation-on-zero-mean-data', res)
+            if res == 'sat':
+                rep.replayed += 1
+                dev = float(np.abs((D @ S - np.eye(N))[1:, 1:]).max())
+                if dev > 1e-9:
+                    rep.violation(f'{PID}/fourier/integration', f'{nm}/p{p}: |D S - I| on the non-constant modes = {dev:.3e}', {'task': nm, 'p': p, 'deviation': dev})
+                else:
+                    rep.unreproduced(f'{nm}/p{p}', dev)
+            # interval covariance with the reference helper on [0, 2 pi)
+            Dr = np.asarray(ref.get_differentiation_matrix(p=p).todense())
+            Sr = np.asarray(ref.get_integration_matrix(p=p).todense())
+            fac = (2 * np.pi / Lx) ** p
+            devD = float(np.abs(D - fac * Dr).max())
+            devS = float(np.abs((S - Sr / fac)[1:, 1:]).max())
+            rep.side(f'{nm}/p{p}:interval-covariance', devD <= 1e-11 * scale and devS <= 1e-11 * (1 + 1 / fac), {'D': devD, 'S': devS})
+        w = np.asarray(H.get_integration_weights(), dtype=float)
+        rep.side(f'{nm}:integration-weights', abs(w[0] - Lx / N) <= 1e-14 * Lx and not np.any(w[1:]))
+        rep.side(f'{nm}:wavenumbers', bool(np.allclose(np.asarray(H.get_wavenumbers()), kap, rtol=1e-14, atol=0)))
+    rep.sample({'case': f'fft/N{N}', 'free': 'complex coefficient vector in the unit box', 'oracle': 'analytic wavenumbers + inverse / covariance relations'}, limit=4)
